@@ -50,6 +50,12 @@ def run_case(c):
     put("maxv", mx)
     put("gauss", lambda: enc.arr(ca.mutual_information(tau_max=tm, estimator="gauss", lag_mode="all")))
     put("bin2", lambda: enc.arr(ca.mutual_information(tau_max=tm, estimator="binning", bins=2, lag_mode="all")))
+
+    def mimax(est, **kw):
+        v, l = ca.mutual_information(tau_max=tm, estimator=est, lag_mode="max", **kw)
+        return [enc.arr(v), enc.ints(l)]
+    put("bin2max", lambda: mimax("binning", bins=2))
+    put("gaussmax", lambda: mimax("gauss"))
     put("pure0", lambda: enc.arr(CouplingAnalysisPurePython(data.copy(), silence_level=3)
                                  .cross_correlation(tau_max=0, lag_mode="all")[0]))
     put("spearman", lambda: enc.arr(_climate("SpearmanClimateNetwork", data).similarity_measure()))
@@ -91,7 +97,7 @@ def run_case(c):
         put("tmi4", lambda: enc.arr(Surrogates.test_mutual_information(orig.copy(), surr.copy(), n_bins=4)))
     for key in ("tpear", "tmi2", "tmi4", "partial", "mi", "mi_perm"):
         o.setdefault(key, [[0] * 3] * 3)
-    for key in ("all", "maxv", "maxl", "symv", "syml", "gauss", "bin2", "pure0", "tsonis", "spearman", "all_aff", "all_perm",
+    for key in ("all", "maxv", "maxl", "symv", "syml", "gauss", "bin2", "bin2max", "gaussmax", "pure0", "tsonis", "spearman", "all_aff", "all_perm",
                 "all_big", "pure0_big"):
         o.setdefault(key, [])
     rec["obs"] = o
